@@ -8,6 +8,7 @@ mod gen;
 mod img;
 mod opsir;
 mod pduconv;
+mod ulpeer;
 mod props;
 
 use engine::{Ctx, Tier};
